@@ -630,7 +630,7 @@ fn vertex_case(rng: &mut Rng) -> Vec<TrackSpec> {
     let mut v: Vec<TrackSpec> = Vec::new();
     let zs = [-0.3, -0.3 + 0.02, 0.0, 0.01, 0.033, 0.0345, 0.4, 0.4];
     let radii = [0.25, 0.25, 0.5, 0.5, 1.0, 0.125, 2.0, 0.75];
-    let mode = rng.below(5);
+    let mode = rng.below(6);
     for i in 0..n {
         let zc = *rng.pick(&zs);
         let rr = *rng.pick(&radii);
@@ -645,6 +645,26 @@ fn vertex_case(rng: &mut Rng) -> Vec<TrackSpec> {
             0 => good_track(rng, zc, rr, hh),
             // exact duplicates of earlier tracks
             1 if i > 0 && coin => *rng.pick(&v),
+            // twins: the helix of an earlier track bit for bit, another t range (a short one that fails
+            // the length cut, a longer one, a reversed one) - a track is its helix AND its range (seed C15-5)
+            5 if i > 0 && coin => {
+                let mut t = *rng.pick(&v);
+                match rng.below(4) {
+                    0 => t[7] = t[6] + 0.01,
+                    1 => t[7] += 0.4,
+                    2 => t[6] -= 0.3,
+                    _ => {
+                        let (a, b) = (t[6], t[7]);
+                        t[6] = b;
+                        t[7] = a;
+                    }
+                }
+                t
+            }
+            5 => {
+                let zc5 = [0.0, 0.01, 0.3][(u1 * 3.0) as usize % 3];
+                good_track(rng, zc5, rr, hh)
+            }
             // everything at one height
             2 => good_track(rng, 0.1, rr, 1.0),
             // tracks failing the filters (too short / far from the beamline)
